@@ -240,7 +240,15 @@ pub fn run(ctx: &mut Ctx) {
                 let mb = psetraw::write(&m);
                 let kind = if mi == 0 { "global" } else if mi <= ps.n_inputs() { "input" } else { "output" };
                 if check_accepted(ctx, &mb, "pair-duplicated").is_some() {
-                    ctx.violation(&format!("duplicate-key-accepted/{}/type{:#04x}", kind, pair.0[0]), json!({"bytes": hex_short(&mb), "key": hex_short(&pair.0)}));
+                    // proprietary keys: tell the Elements subtypes apart (type, len("pset"), "pset", subtype)
+                    let sub = if pair.0[0] == 0xfc && pair.0.len() >= 7 && &pair.0[1..6] == b"\x04pset" {
+                        format!("/pset-subtype{:#04x}", pair.0[6])
+                    } else if pair.0[0] == 0xfc {
+                        "/other-prefix".to_string()
+                    } else {
+                        String::new()
+                    };
+                    ctx.violation(&format!("duplicate-key-accepted/{}/type{:#04x}{}", kind, pair.0[0], sub), json!({"bytes": hex_short(&mb), "key": hex_short(&pair.0)}));
                 }
             }
         }
